@@ -276,6 +276,183 @@ func clusterSeq(r *rand.Rand) []string {
 	return seq
 }
 
+// replaceSeq: membership changes that keep the SIZE of the peer set constant between lookups -- one peer replaced by
+// another, several replaced at once, the same peer removed and added back, removals and additions permuted -- with the
+// SAME subscribers looked up before and after, at every pool, and at a pool freshly built from the resulting
+// membership.  Half of the rounds also look up after every single membership operation.  An owner that depends on
+// anything less than the membership (its size, a memo of an earlier answer) shows up against the fresh pool (`agree`),
+// the head of the pool's own ranked list (`head`) and the model.
+func replaceSeq(r *rand.Rand) []string {
+	n := 2 + r.Intn(6)
+	perm := r.Perm(len(universe))
+	set := make([]string, 0, n)
+	var spare []string
+	for i, j := range perm {
+		if i < n {
+			set = append(set, universe[j])
+		} else {
+			spare = append(spare, universe[j])
+		}
+	}
+	npools := 1 + r.Intn(3)
+	var seq []string
+	for i := 0; i < npools; i++ {
+		self := set[r.Intn(len(set))]
+		seq = append(seq, fmt.Sprintf("node %d %s %s", i, id(self), ids(shuffled(r, set))))
+	}
+	keys := make([]string, 6+r.Intn(7))
+	for i := range keys {
+		keys[i] = fmt.Sprintf("sub-%d", r.Intn(100000))
+		if r.Intn(6) == 0 {
+			keys[i] = randKey(r)
+		}
+	}
+	fresh := 100
+	ask := func() {
+		for i := 0; i < npools; i++ {
+			for _, k := range keys {
+				seq = append(seq, fmt.Sprintf("q %d %s", i, id(k)))
+			}
+		}
+	}
+	askFresh := func() {
+		// a pool built from scratch with the present membership, in a new order
+		seq = append(seq, fmt.Sprintf("node %d %s %s", fresh, id(set[r.Intn(len(set))]), ids(shuffled(r, set))))
+		for _, k := range keys {
+			seq = append(seq, fmt.Sprintf("q %d %s", fresh, id(k)))
+		}
+		fresh++
+	}
+	ask()
+	for round := 2 + r.Intn(5); round > 0; round-- {
+		// the membership operations of this round
+		var ops [][2]string // (op, node)
+		switch r.Intn(5) {
+		case 0, 1: // replace one peer
+			if len(spare) == 0 || len(set) == 0 {
+				continue
+			}
+			x, y := set[r.Intn(len(set))], spare[r.Intn(len(spare))]
+			if r.Intn(2) == 0 {
+				ops = [][2]string{{"removepeer", x}, {"addpeer", y}}
+			} else {
+				ops = [][2]string{{"addpeer", y}, {"removepeer", x}}
+			}
+		case 2: // replace several at once
+			m := 2 + r.Intn(2)
+			if len(spare) < m || len(set) < m {
+				continue
+			}
+			xs, ys := shuffled(r, set)[:m], shuffled(r, spare)[:m]
+			for _, x := range xs {
+				ops = append(ops, [2]string{"removepeer", x})
+			}
+			for _, y := range ys {
+				ops = append(ops, [2]string{"addpeer", y})
+			}
+			r.Shuffle(len(ops), func(i, j int) { ops[i], ops[j] = ops[j], ops[i] })
+		case 3: // remove and add back the same peer
+			x := set[r.Intn(len(set))]
+			ops = [][2]string{{"removepeer", x}, {"addpeer", x}}
+		case 4: // two out, two back in another order, one of them replaced
+			if len(set) < 2 || len(spare) == 0 {
+				continue
+			}
+			xs := shuffled(r, set)[:2]
+			y := spare[r.Intn(len(spare))]
+			ops = [][2]string{{"removepeer", xs[0]}, {"removepeer", xs[1]}, {"addpeer", y}, {"addpeer", xs[0]}}
+		}
+		perOp := r.Intn(2) == 0
+		for _, o := range ops {
+			for i := 0; i < npools; i++ {
+				seq = append(seq, fmt.Sprintf("%s %d %s", o[0], i, id(o[1])))
+			}
+			if o[0] == "removepeer" {
+				if len(without(set, o[1])) < len(set) {
+					spare = append(spare, o[1])
+				}
+				set = without(set, o[1])
+			} else {
+				if len(without(set, o[1])) == len(set) {
+					set = append(set, o[1])
+				}
+				spare = without(spare, o[1])
+			}
+			if perOp && len(set) > 0 {
+				ask()
+				askFresh()
+			}
+		}
+		if len(set) == 0 {
+			break
+		}
+		ask()
+		askFresh()
+	}
+	return seq
+}
+
+// replaceCluster: three or four nodes end to end; one node is replaced by a new one at every pool with no lookup in
+// between (the new node has a pool of its own), then the same subscribers are allocated at every entry node again.
+func replaceCluster(r *rand.Rand) []string {
+	n := 3 + r.Intn(2)
+	all := shuffled(r, hosts)
+	set, spare := all[:n], all[n:]
+	var seq []string
+	for i, self := range set {
+		seq = append(seq, fmt.Sprintf("node %d %s %s", i, id(self), ids(shuffled(r, without(set, self)))))
+	}
+	keys := make([]string, 8+r.Intn(8))
+	for i := range keys {
+		keys[i] = fmt.Sprintf("sub-%d", r.Intn(100000))
+	}
+	entries := make([]int, n)
+	for i := range entries {
+		entries[i] = i
+	}
+	askAll := func() {
+		for _, k := range keys {
+			for _, e := range entries {
+				seq = append(seq, fmt.Sprintf("alloc %d %s", e, id(k)), fmt.Sprintf("q %d %s", e, id(k)))
+			}
+		}
+	}
+	askAll()
+	next := n
+	for round := 1 + r.Intn(2); round > 0 && len(spare) > 0; round-- {
+		xi := r.Intn(len(entries))
+		x := set[xi]
+		y := spare[0]
+		spare = spare[1:]
+		newSet := append(without(set, x), y)
+		// the newcomer's own pool
+		seq = append(seq, fmt.Sprintf("node %d %s %s", next, id(y), ids(shuffled(r, without(newSet, y)))))
+		for j, e := range entries {
+			if j == xi {
+				continue
+			}
+			if r.Intn(2) == 0 {
+				seq = append(seq, fmt.Sprintf("removepeer %d %s", e, id(x)), fmt.Sprintf("addpeer %d %s", e, id(y)))
+			} else {
+				seq = append(seq, fmt.Sprintf("addpeer %d %s", e, id(y)), fmt.Sprintf("removepeer %d %s", e, id(x)))
+			}
+		}
+		// the replaced node no longer takes requests
+		var ne []int
+		var ns []string
+		for j, e := range entries {
+			if j != xi {
+				ne = append(ne, e)
+				ns = append(ns, set[j])
+			}
+		}
+		entries, set = append(ne, next), append(ns, y)
+		next++
+		askAll()
+	}
+	return seq
+}
+
 func (comp) Gen(r *rand.Rand, tier string, emit func([]string)) {
 	nAgree, nPerm5, nHealth, nCluster := 1500, 3, 60, 60
 	if tier == "thorough" {
@@ -297,6 +474,16 @@ func (comp) Gen(r *rand.Rand, tier string, emit func([]string)) {
 	}
 	for i := 0; i < nCluster; i++ {
 		emit(clusterSeq(r))
+	}
+	nReplace, nReplaceCluster := 300, 40
+	if tier == "thorough" {
+		nReplace, nReplaceCluster = 6000, 800
+	}
+	for i := 0; i < nReplace; i++ {
+		emit(replaceSeq(r))
+	}
+	for i := 0; i < nReplaceCluster; i++ {
+		emit(replaceCluster(r))
 	}
 }
 
